@@ -3,3 +3,7 @@ claim("C39",
       "Every typed field sequence (<=2 quick / <=3 thorough fields, ints over their full 32/64-bit ranges, strings <=3 bytes, mpints over [-2^136,2^136] quick / [-2^264,2^264] thorough) written by the real Message.add_* is proved (z3, per path) to read back unchanged, so_far+remainder==whole after every read, and mpints match an independent RFC 4251 minimal two's-complement reference including zero as the empty string.",
       "Trusted: z3 QF_BV, the struct/BytesIO environment models (exact BV models), CPython. Outside the claim: longer sequences, 4096-bit integers (the per-word loop is uniform; bound stated), non-ASCII text, name-lists with symbolic characters.",
       design="7 (C39)")
+claim("C03",
+      "The real Packetizer.send_message/_build_packet are executed on a payload whose length is ONE symbolic 32-bit variable (1..2^32-299) for every framing mode (plain, classic, ETM, AEAD), block size {8,16,32,64}, MAC size {12,16,20,32,64}; z3 proves 4<=padding<=255, length field == 1+payload+padding, wire bytes == 4+length+mac, encrypted span multiple of the block size (length excluded for ETM/AEAD), padding byte == pad bytes written. A second case uses symbolic payload BYTES (<=21 quick / <=73 thorough) and proves the payload is embedded intact.",
+      "Trusted: z3, struct model, cipher/MAC stubs (length-preserving identity, 16-byte AEAD tag, 64-byte digest truncated by the real code). Outside: compression, the cipher x MAC table beyond (block size, mac size, etm, aead, sdctr), rekey triggering (REKEY_BYTES raised so it does not fork; C10).",
+      design="7 (C03)")
